@@ -1,5 +1,5 @@
-"""Seam L2: the REAL network backends of httpcore (AnyIOBackend via AutoBackend,
-SyncBackend) run above fakes of the OS / runtime layer: fake anyio.connect_tcp /
+"""Seam L2: the REAL network backends of httpcore (AnyIOBackend and TrioBackend via
+AutoBackend, SyncBackend) run above fakes of the OS / runtime layer: fake anyio.connect_tcp /
 TLSStream.wrap / byte-stream objects and fake socket.create_connection / socket objects /
 SSLSocket, all over the same Wire model.  The backends' exception maps, fail_after /
 settimeout handling and close-on-TLS-failure are then real code under test."""
@@ -20,8 +20,11 @@ from .wire import WireError
 import httpcore._backends.anyio as hc_anyio  # noqa: E402
 import httpcore._backends.sync as hc_sync  # noqa: E402
 
+import httpcore._backends.trio as hc_trio  # noqa: E402
+
 for _m, _names in ((hc_anyio, ("anyio", "is_socket_readable")),
-                   (hc_sync, ("socket", "is_socket_readable"))):
+                   (hc_sync, ("socket", "is_socket_readable")),
+                   (hc_trio, ("trio",))):
     for _n in _names:
         if not hasattr(_m, _n):
             raise HarnessError(f"seam missing: {_m.__name__}.{_n}")
@@ -135,6 +138,134 @@ class AnyioShim:
         except WireError as e:
             raise FileNotFoundError(2, str(e)) from None
         return FakeAnyioStream(w, wire)
+
+
+# ---------------------------------------------------------------------------
+# trio
+
+
+class FakeTrioSocket:
+    """What SocketStream.socket is to TrioStream.get_extra_info."""
+
+    def __init__(self, wire):
+        self.wire = wire
+
+    def is_readable(self):
+        return self.wire.readable()
+
+    def getsockname(self):
+        return ("127.0.0.1", 50000 + self.wire.id)
+
+    def getpeername(self):
+        return self.wire.endpoint
+
+    def setsockopt(self, *a):
+        pass
+
+
+class FakeTrioSocketStream:
+    """Plays trio.SocketStream."""
+
+    def __init__(self, world, wire):
+        self.world = world
+        self.wire = wire
+        self.socket = FakeTrioSocket(wire)
+
+    async def receive_some(self, max_bytes=None):
+        import trio
+
+        try:
+            return await adrive(self.world, self.wire, self.wire.recv(max_bytes or 65536, None))
+        except WireError as e:
+            if "closed locally" in str(e):
+                raise trio.ClosedResourceError from None
+            raise trio.BrokenResourceError from None
+
+    async def send_all(self, data):
+        import trio
+
+        try:
+            await adrive(self.world, self.wire, self.wire.send(bytes(data), None))
+        except WireError as e:
+            if "closed locally" in str(e):
+                raise trio.ClosedResourceError from None
+            raise trio.BrokenResourceError from None
+
+    async def aclose(self):
+        await adrive(self.world, self.wire, self.wire.close())
+
+    def setsockopt(self, *a):
+        pass
+
+
+class FakeTrioSSLStream:
+    """Plays trio.SSLStream (possibly nested: TLS inside a TLS proxy tunnel)."""
+
+    def __init__(self, transport_stream, ssl_context=None, server_hostname=None,
+                 https_compatible=False, server_side=False):
+        self.transport_stream = transport_stream
+        self._ctx = ssl_context
+        self._hostname = server_hostname
+        self._ssl_object = None
+        base = transport_stream
+        while isinstance(base, FakeTrioSSLStream):
+            base = base.transport_stream
+        self._base = base
+        self.world = base.world
+        self.wire = base.wire     # the ownership walk (C04/C06) stops at objects with .wire
+
+    async def do_handshake(self):
+        import trio
+
+        b = self._base
+        offered = getattr(self._ctx, "alpn", None)
+        try:
+            await adrive(b.world, b.wire, b.wire.start_tls(self._hostname, offered, None))
+        except WireError:
+            # trio reports a failed handshake (ssl.SSLError) as BrokenResourceError
+            b.world.probes["l2_tls_failure_seen_by_real_backend"] += 1
+            raise trio.BrokenResourceError from None
+        self._ssl_object = SSLObject(b.wire)
+
+    async def receive_some(self, max_bytes=None):
+        return await self._base.receive_some(max_bytes)
+
+    async def send_all(self, data):
+        await self._base.send_all(data)
+
+    async def aclose(self):
+        await self._base.aclose()
+
+
+class TrioShim:
+    """Proxy for the `trio` name inside httpcore._backends.trio."""
+
+    SSLStream = FakeTrioSSLStream
+    SocketStream = FakeTrioSocketStream
+
+    def __init__(self, world):
+        self._world = world
+
+    def __getattr__(self, name):
+        import trio
+
+        return getattr(trio, name)
+
+    async def open_tcp_stream(self, host, port, local_address=None, **kw):
+        w = self._world
+        try:
+            wire = await adrive(w, None, w.net.connect((host, port), None))
+        except WireError as e:
+            raise ConnectionRefusedError(111, str(e)) from None
+        return FakeTrioSocketStream(w, wire)
+
+    async def open_unix_socket(self, path):
+        w = self._world
+        try:
+            wire = await adrive(w, None, w.net.connect(("unix", path), None))
+        except WireError as e:
+            raise FileNotFoundError(2, str(e)) from None
+        return FakeTrioSocketStream(w, wire)
 
 
 # ---------------------------------------------------------------------------
@@ -287,9 +418,10 @@ class SocketShim:
 
 
 class Installed:
-    def __init__(self, world, sync):
+    def __init__(self, world, sync, lib="asyncio"):
         self.world = world
         self.sync = sync
+        self.lib = lib
         self.saved = []
 
     def __enter__(self):
@@ -297,6 +429,8 @@ class Installed:
         w.net.cfg["l2"] = not self.sync   # async: the real fail_after owns every time-out
         if self.sync:
             pairs = [(hc_sync, "socket", SocketShim(w)), (hc_sync, "is_socket_readable", _is_readable)]
+        elif self.lib == "trio":
+            pairs = [(hc_trio, "trio", TrioShim(w))]
         else:
             pairs = [(hc_anyio, "anyio", AnyioShim(w)), (hc_anyio, "is_socket_readable", _is_readable)]
         for mod, name, val in pairs:
